@@ -313,8 +313,16 @@ namespace smt
             auto it = l.vars.cbegin();
             if (!is_integer(it->second) | !is_integer(l.known_term))
                 throw std::invalid_argument("not a valid integer difference logic constraint..");
-            c_lb += lb(it->first) * it->second.numerator() + l.known_term.numerator();
-            c_ub += ub(it->first) * it->second.numerator() + l.known_term.numerator();
+            if (it->second.numerator() >= 0)
+            {
+                c_lb += lb(it->first) * it->second.numerator() + l.known_term.numerator();
+                c_ub += ub(it->first) * it->second.numerator() + l.known_term.numerator();
+            }
+            else
+            { // a negative coefficient swaps the roles of the two bounds..
+                c_lb += ub(it->first) * it->second.numerator() + l.known_term.numerator();
+                c_ub += lb(it->first) * it->second.numerator() + l.known_term.numerator();
+            }
             break;
         }
         case 2:
